@@ -130,8 +130,20 @@ func (g *genModel) strExpr(v ssa.Value) ([]strPart, error) {
 				return []strPart{{Elem: ia.X}}, nil
 			}
 		}
+	case *ssa.Field:
+		// a field of a descriptor struct handed to the writing helper by value
+		if fv, ok := g.structFieldValue(v.X, v.Field, 0); ok {
+			return g.strExpr(fv)
+		}
 	case *ssa.Phi:
 		// range over value (for _, id := range ids) may appear as a load; other phis are not supported
+	}
+	if ld, ok := v.(*ssa.UnOp); ok && ld.Op == token.MUL {
+		if fa, ok := ld.X.(*ssa.FieldAddr); ok {
+			if fv, ok := g.structFieldValue(fa.X, fa.Field, 0); ok {
+				return g.strExpr(fv)
+			}
+		}
 	}
 	return nil, fmt.Errorf("%s: string expression %s is not built from constants and range elements", g.p.pos(v.Pos()), v)
 }
@@ -274,6 +286,180 @@ func isRangeIndexOf(idx ssa.Value, list ssa.Value) error {
 	return nil
 }
 
+// structFieldValue: the value stored into field #field of the struct x denotes (x: a struct value or a
+// pointer to one), when x is a local literal written once per field — possibly reached through bound
+// parameters and by-value copies.
+func (g *genModel) structFieldValue(x ssa.Value, field int, d int) (ssa.Value, bool) {
+	if d > 8 {
+		return nil, false
+	}
+	x = g.deref(x)
+	switch t := x.(type) {
+	case *ssa.UnOp:
+		if t.Op == token.MUL {
+			return g.structFieldValue(t.X, field, d+1) // the struct a pointer points to
+		}
+	case *ssa.Alloc:
+		var whole ssa.Value
+		nWhole := 0
+		var fv ssa.Value
+		nField := 0
+		for _, r := range *t.Referrers() {
+			switch r := r.(type) {
+			case *ssa.Store:
+				if r.Addr == ssa.Value(t) {
+					whole = r.Val
+					nWhole++
+				}
+			case *ssa.FieldAddr:
+				for _, rr := range *r.Referrers() {
+					if st, ok := rr.(*ssa.Store); ok && st.Addr == ssa.Value(r) {
+						if r.Field == field {
+							fv = st.Val
+							nField++
+						}
+					}
+				}
+			}
+		}
+		switch {
+		case nWhole == 1 && nField == 0:
+			return g.structFieldValue(whole, field, d+1) // a by-value copy (a spilled parameter)
+		case nWhole == 0 && nField == 1:
+			return fv, true
+		}
+	}
+	return nil, false
+}
+
+// builderExpr resolves what a local strings.Builder / bytes.Buffer holds when `end` (its String / Bytes
+// call) runs: the writes that dominate `end`, in order, and range loops whose single body block writes.
+func (g *genModel) builderExpr(bld *ssa.Alloc, end *ssa.Call) ([]tmplPart, error) {
+	type emit struct {
+		call *ssa.Call
+		arg  ssa.Value
+		byt  bool
+	}
+	var emits []emit
+	for _, r := range *bld.Referrers() {
+		c, ok := r.(*ssa.Call)
+		if !ok {
+			if _, isDbg := r.(*ssa.DebugRef); isDbg {
+				continue
+			}
+			return nil, fmt.Errorf("%s: the builder is used in a way the template extraction does not model (%T)", g.p.pos(r.Pos()), r)
+		}
+		callee := c.Call.StaticCallee()
+		if callee == nil || len(c.Call.Args) == 0 || c.Call.Args[0] != ssa.Value(bld) {
+			return nil, fmt.Errorf("%s: the builder is handed to another function", g.p.pos(c.Pos()))
+		}
+		switch callee.String() {
+		case "(*strings.Builder).WriteString", "(*bytes.Buffer).WriteString":
+			emits = append(emits, emit{c, c.Call.Args[1], false})
+		case "(*strings.Builder).WriteByte", "(*bytes.Buffer).WriteByte", "(*strings.Builder).WriteRune", "(*bytes.Buffer).WriteRune":
+			emits = append(emits, emit{c, c.Call.Args[1], true})
+		case "(*strings.Builder).String", "(*bytes.Buffer).String", "(*bytes.Buffer).Bytes", "(*strings.Builder).Len", "(*bytes.Buffer).Len", "(*strings.Builder).Grow", "(*bytes.Buffer).Grow":
+		default:
+			return nil, fmt.Errorf("%s: %s on the builder is not modelled", g.p.pos(c.Pos()), callee)
+		}
+	}
+	partsOf := func(e emit) ([]strPart, error) {
+		if e.byt {
+			if k, ok := g.deref(e.arg).(*ssa.Const); ok && k.Value != nil && k.Value.Kind() == constant.Int {
+				return []strPart{{Const: string(rune(k.Int64()))}}, nil
+			}
+			return nil, fmt.Errorf("%s: a non-constant character is written", g.p.pos(e.call.Pos()))
+		}
+		return g.strExpr(e.arg)
+	}
+	// order: blocks that dominate the end, by dominance; a loop is placed at its header
+	type item struct {
+		blk  *ssa.BasicBlock
+		ord  int
+		part []tmplPart
+	}
+	var items []item
+	byBlock := map[*ssa.BasicBlock][]emit{}
+	for _, e := range emits {
+		byBlock[e.call.Block()] = append(byBlock[e.call.Block()], e)
+	}
+	endBlk := end.Block()
+	for blk, es := range byBlock {
+		sort.Slice(es, func(i, j int) bool { return blockOrder(es[i].call) < blockOrder(es[j].call) })
+		inLoop := len(blk.Succs) == 1 && isLoopHeader(blk.Succs[0]) && len(blk.Preds) == 1 && blk.Preds[0] == blk.Succs[0]
+		if !inLoop {
+			if !(blk == endBlk || blk.Dominates(endBlk)) {
+				return nil, fmt.Errorf("%s: a write to the builder is conditional", g.p.pos(es[0].call.Pos()))
+			}
+			var ps []tmplPart
+			for _, e := range es {
+				if blk == endBlk && blockOrder(e.call) > blockOrder(end) {
+					return nil, fmt.Errorf("%s: a write after the builder was read", g.p.pos(e.call.Pos()))
+				}
+				sps, err := partsOf(e)
+				if err != nil {
+					return nil, err
+				}
+				for _, sp := range sps {
+					if sp.Elem != nil {
+						return nil, fmt.Errorf("%s: range element used outside its loop", g.p.pos(e.call.Pos()))
+					}
+					ps = append(ps, tmplPart{Const: sp.Const})
+				}
+			}
+			items = append(items, item{blk, 0, ps})
+			continue
+		}
+		hdr := blk.Succs[0]
+		if !hdr.Dominates(endBlk) {
+			return nil, fmt.Errorf("%s: the emitting loop is conditional", g.p.pos(es[0].call.Pos()))
+		}
+		rep := &tmplRepeat{}
+		var list ssa.Value
+		for _, e := range es {
+			sps, err := partsOf(e)
+			if err != nil {
+				return nil, err
+			}
+			for _, sp := range sps {
+				if sp.Elem != nil {
+					if list != nil {
+						return nil, fmt.Errorf("%s: element emitted twice per iteration", g.p.pos(e.call.Pos()))
+					}
+					list = sp.Elem
+					continue
+				}
+				if list == nil {
+					rep.Pre += sp.Const
+				} else {
+					rep.Post += sp.Const
+				}
+			}
+		}
+		if list == nil {
+			return nil, fmt.Errorf("%s: loop emits no element", g.p.pos(es[0].call.Pos()))
+		}
+		proj, err := g.listExpr(list)
+		if err != nil {
+			return nil, err
+		}
+		rep.Proj = *proj
+		items = append(items, item{hdr, 0, []tmplPart{{Rep: rep}}})
+	}
+	// dominance is a total order on blocks that all dominate endBlk
+	sort.Slice(items, func(i, j int) bool {
+		if items[i].blk == items[j].blk {
+			return false
+		}
+		return items[i].blk.Dominates(items[j].blk)
+	})
+	var out []tmplPart
+	for _, it := range items {
+		out = append(out, it.part...)
+	}
+	return out, nil
+}
+
 // bytesExpr resolves a []byte value into a template.
 func (g *genModel) bytesExpr(v ssa.Value, depth int) ([]tmplPart, error) {
 	if depth > 64 {
@@ -285,7 +471,59 @@ func (g *genModel) bytesExpr(v ssa.Value, depth int) ([]tmplPart, error) {
 		if s, ok := constString(g.deref(v.X)); ok {
 			return []tmplPart{{Const: s}}, nil
 		}
+		// []byte(builder.String())
+		if c, ok := g.deref(v.X).(*ssa.Call); ok && c.Call.StaticCallee() != nil && len(c.Call.Args) == 1 {
+			if n := c.Call.StaticCallee().String(); n == "(*strings.Builder).String" || n == "(*bytes.Buffer).String" {
+				if bld, ok := c.Call.Args[0].(*ssa.Alloc); ok {
+					return g.builderExpr(bld, c)
+				}
+			}
+		}
+		// []byte(a + b + …) of constants and descriptor fields
+		if sps, err := g.strExpr(v.X); err == nil {
+			var out []tmplPart
+			for _, sp := range sps {
+				if sp.Elem != nil {
+					return nil, fmt.Errorf("%s: range element used outside its loop", g.p.pos(v.Pos()))
+				}
+				out = append(out, tmplPart{Const: sp.Const})
+			}
+			return out, nil
+		}
 	case *ssa.Call:
+		if callee := v.Call.StaticCallee(); callee != nil && callee.String() == "(*bytes.Buffer).Bytes" && len(v.Call.Args) == 1 {
+			if bld, ok := v.Call.Args[0].(*ssa.Alloc); ok {
+				return g.builderExpr(bld, v)
+			}
+		}
+		if callee := v.Call.StaticCallee(); callee != nil && g.p.InModule(callee) && len(callee.Blocks) > 0 && depth < 8 {
+			// a rendering helper: its single result, with its parameters bound to this call's arguments
+			var rets []ssa.Value
+			for _, b := range callee.Blocks {
+				if ret, ok := b.Instrs[len(b.Instrs)-1].(*ssa.Return); ok && len(ret.Results) >= 1 {
+					rets = append(rets, ret.Results[0])
+				}
+			}
+			if len(rets) == 1 {
+				if g.bind == nil {
+					g.bind = map[*ssa.Parameter]ssa.Value{}
+				}
+				var added []*ssa.Parameter
+				for i, prm := range callee.Params {
+					if i < len(v.Call.Args) {
+						if _, had := g.bind[prm]; !had {
+							g.bind[prm] = v.Call.Args[i]
+							added = append(added, prm)
+						}
+					}
+				}
+				parts, err := g.bytesExpr(rets[0], depth+1)
+				for _, prm := range added {
+					delete(g.bind, prm)
+				}
+				return parts, err
+			}
+		}
 		if b, ok := v.Call.Value.(*ssa.Builtin); ok && b.Name() == "append" && len(v.Call.Args) == 2 {
 			head, err := g.bytesExpr(v.Call.Args[0], depth+1)
 			if err != nil {
@@ -744,6 +982,11 @@ func extractGenerator(p *Prog) ([]genArtefact, []string, error) {
 					for bi, bnd := range binds {
 						g.bind = bnd
 						path, ok := constString(g.deref(c.Call.Args[0]))
+						if !ok {
+							if sps, err := g.strExpr(c.Call.Args[0]); err == nil && len(sps) == 1 && sps[0].Elem == nil {
+								path, ok = sps[0].Const, true
+							}
+						}
 						if !ok {
 							undecided = append(undecided, fmt.Sprintf("%s: output path is not a constant", p.pos(sitePos[bi])))
 							continue
